@@ -138,13 +138,20 @@ class Client:
             self.conn = None
 
     def begin(self):
-        return self.tm.begin()
+        try:
+            return self.tm.begin()
+        except transaction.interfaces.AlreadyInTransaction:
+            self.tm.abort()
+            return self.tm.begin()
 
     def commit(self):
         self.tm.commit()
 
     def abort(self):
-        self.tm.abort()
+        try:
+            self.tm.abort()
+        except transaction.interfaces.NoTransaction:
+            pass
 
     def root(self):
         return self.conn.root()
@@ -154,6 +161,19 @@ def token_of(data):
     """token stored in a Cell-like record (None if not decodable)."""
     try:
         _, state = objs.decode_record(data)
-        return state.get('token')
+        return hashable(state.get('token'))
     except Exception:       # noqa: B902
         return None
+
+
+def hashable(x):
+    if isinstance(x, list):
+        return tuple(hashable(i) for i in x)
+    return x
+
+
+def leaf_token(tok):
+    """The writer's own token inside a (possibly repeatedly) merged one."""
+    while isinstance(tok, tuple) and len(tok) == 3 and tok[0] == 'm':
+        tok = tok[2]
+    return tok
